@@ -122,6 +122,9 @@ theorem spipe_forwards {σ0 : Type} (base : SM σ0 α) (p : SPipe α)
     (hC : stCompactCloseForwards = true := by decide) (hP : stPeekCloseForwards = true := by decide)
     (hCh : stChunkCloseForwards = true := by decide) (hFS : stFlattenSlicesCloseForwards = true := by decide) :
     Forwards base (p.machine base).m (p.machine base).proj := by
+  have _ties := And.intro Skeleton.Tie.stFilter (And.intro Skeleton.Tie.stMap (And.intro Skeleton.Tie.stFirst
+    (And.intro Skeleton.Tie.stWhile (And.intro Skeleton.Tie.stCompact (And.intro Skeleton.Tie.stPeek
+    (And.intro Skeleton.Tie.stChunk Skeleton.Tie.stFlattenSlices))))))
   induction p with
   | src => exact Forwards.refl base
   | filter keep p ih => exact ih.comp (filter_forwards (liftCb keep) _ hFi)
